@@ -1,4 +1,5 @@
 import OH.Driver.Ev
+import Std.Data.HashMap
 import OH.Model.Parser
 /-
 Property-specific verdicts for the evaluator ops (same executions as `ev.*`, other predicates):
@@ -80,6 +81,46 @@ def handleC02 (args : List String) (ctx : Ctx) (e : Expr) (res : List String) : 
             | none =>
               if sameOut m r then some s!"ok n{min out.length 6}-{exprTag e}" else some s!"disagree model={joinSp m}"
       | _ => none
+    | _, _ => none
+  | _ => none
+
+/-! ### C02: the hint itself (`c02.hint d0 n`: the implementation's `next_change_hint` for `n` days from `d0`) -/
+
+/-- `c02HintBad` (= `EnvOK.hint_gt` + `EnvOK.hint_sound`, theorem `OH.Props.C02H.c02Hint_of_envOK`) on each
+answer, with the model's daily schedules (computed once per day of the line); an answer BEYOND the model's
+own hint passes the test on the days looked at but is outside what Layer B proves: a disagreement -/
+def handleC02Hint (args : List String) (ctx : Ctx) (e : Expr) (res : List String) : Option String :=
+  match args with
+  | d0 :: n :: _ =>
+    match d0.toInt?, n.toNat? with
+    | some d0, some n =>
+      (skipPanic res).orElse fun _ =>
+      if res.length != n then none else
+      -- (day, jump target) of every answer for a day before 10000-01-01
+      let answers : List (Int × Int) := (List.range n).zip res |>.filterMap (fun (i, tk) =>
+        let d := d0 + Int.ofNat i
+        if tk == "x" || d ≥ dateEnd then none
+        else if tk == "none" then some (d, d + 1)
+        else (tk.toInt?).map (fun h => (d, h)))
+      let needed : List Int := answers.flatMap (fun (d, h) => d :: hintDaysToCheck d h 14 16)
+      let cache : Std.HashMap Int (Option (List TimeRange)) :=
+        needed.foldl (fun m x => if m.contains x then m else m.insert x (schedOf ctx e x)) {}
+      let sched : Int → Option (List TimeRange) := fun x => match cache.get? x with | some v => v | none => schedOf ctx e x
+      let modelHint (d : Int) : Option Int :=
+        match nextChangeHint ctx e d with | .ok (some x) => some x | .ok none => some (d + 1) | .error _ => none
+      let bad := answers.findSome? (fun (d, h) =>
+        (c02HintBad sched d h (hintDaysToCheck d h 14 16)).map (fun b => (d, h, b)))
+      match bad with
+      | some (d, h, b) =>
+        let mh := match modelHint d with | some x => toString x | none => "panic"
+        if b == d then some s!"fail hint-not-after day={d} hint={h} model={mh}"
+        else some s!"fail hint-skips-a-change day={b} from={d} hint={h} model={mh}"
+      | none =>
+        match answers.find? (fun (d, h) => match modelHint d with | some mh => decide (mh < h) | none => true) with
+        | some (d, h) =>
+          some s!"disagree model={match modelHint d with | some x => toString x | none => "panic"} at={d} hint={h}"
+        | none =>
+          some (if answers.any (fun (d, h) => decide (d + 1 < h)) then s!"ok hint-jump-{exprTag e}" else "ok hint-next")
     | _, _ => none
   | _ => none
 
@@ -380,7 +421,8 @@ def handle (op : String) (args impl : List String) : Option String :=
     | _ => none
   | some (ctx, e, res) =>
     if res == ["skip-unrepresentable"] then some "ok skip-unrepresentable" else
-    if op.startsWith "c02." then handleC02 args ctx e res
+    if op == "c02.hint" then handleC02Hint args ctx e res
+    else if op.startsWith "c02." then handleC02 args ctx e res
     else if op.startsWith "c03." then handleC03 op args ctx e res
     else if op.startsWith "c08." then handleC08 op args ctx e res
     else if op.startsWith "c16." then handleC16 op args ctx e res
